@@ -15,14 +15,16 @@ PROPS = ['C%02d' % i for i in range(1, 21)]
 class Ctx:
     """per-run context: lazily extracted fact bases + the report"""
 
-    def __init__(self, pid, tier, seed):
+    def __init__(self, pid, tier, seed, feat_map=None, rep=None):
         self.pid = pid
         self.tier = tier
-        self.rep = Report(pid, tier, seed)
+        self.rep = rep or Report(pid, tier, seed)
         self._facts = {}
         self.repo = extract.REPO
+        self.feat_map = feat_map or {}
 
     def facts(self, feat='default', prof='rel', crate='bigdecimal', extra_env=None):
+        feat = self.feat_map.get(feat, feat)
         envk = tuple(sorted((extra_env or {}).items()))
         k = (feat, prof, crate, envk)
         if k not in self._facts:
@@ -44,6 +46,8 @@ def run_one(pid, tier, seed):
         return 2
     try:
         mod.run(ctx)
+        if tier == 'thorough':
+            thorough_extra(ctx, mod, seed)
     except extract.ExtractionError as e:
         print('ERROR: %s' % e)
         ctx.rep.ob('EXTRACT', 'extraction', VIOLATION, 'fact extraction failed: the tree does not compile under the driver: %s' % e)
@@ -52,6 +56,63 @@ def run_one(pid, tier, seed):
         sys.stderr.write(tb)
         ctx.rep.ob('INTERNAL', 'checker-crash', VIOLATION, 'checker raised an exception (fail closed): ' + tb.splitlines()[-1])
     return ctx.rep.finish()
+
+
+EXTRA_CONFIGS = {'default': ['serde', 'nostd'], 'serde': ['serde-string']}
+
+
+def thorough_extra(ctx, mod, seed):
+    """thorough tier: (1) the same rules on the other feature configurations; (2) the canary self-test:
+    every seeded defect of this property must be reported under its expected key on a scratch copy"""
+    import subprocess
+    rep = ctx.rep
+    base_feats = {c['features'] for c in rep.configs}
+    for base in sorted(base_feats):
+        for other in EXTRA_CONFIGS.get(base, []):
+            sub = Ctx(ctx.pid, 'quick', seed, feat_map={base: other})
+            try:
+                mod.run(sub)
+            except Exception as e:      # fail closed
+                rep.violation('CONFIG', 'config=%s' % other, 'rules crashed under feature configuration %s: %r' % (other, e))
+                continue
+            rep.configs += sub.rep.configs
+            bad = [o for o in sub.rep.obs if o['status'] == VIOLATION]
+            for o in bad:
+                o = dict(o)
+                o['key'] = o['key'] + '@' + other
+                o['detail'] = '[feature configuration %s] %s' % (other, o['detail'])
+                rep.obs.append(o)
+            if not bad:
+                c = sub.rep.counts()
+                rep.ok('CONFIG', 'config=%s' % other, 'same rules under feature configuration %s: %d obligations, %d discharged, %d reviewed, %d known, 0 violations'
+                       % (other, len(sub.rep.obs), c['discharged'], c['reviewed'], c['known-finding']))
+    # canary self-test
+    p = subprocess.run([sys.executable, os.path.join(HERE, 'canary.py'), '--prop', ctx.pid, '--jobs', '8'],
+                       stdout=subprocess.PIPE, stderr=subprocess.STDOUT, text=True, cwd=os.path.dirname(HERE))
+    lines = [l for l in p.stdout.splitlines() if l.strip()]
+    summary = {}
+    try:
+        summary = json.loads(lines[-1])
+    except Exception:
+        pass
+    results = []
+    for l in lines[:-1]:
+        parts = l.split(None, 2)
+        if len(parts) >= 2:
+            results.append({'status': parts[0], 'canary': parts[1], 'why': parts[2] if len(parts) > 2 else ''})
+    rep.extra['canaries'] = results
+    for r in results:
+        key = 'canary:%s' % r['canary']
+        if r['status'] == 'caught':
+            rep.ok('CANARY', key, 'seeded defect reported under its expected key on a scratch copy of /repo')
+        elif r['status'] == 'skipped':
+            rep.note('canary %s skipped: %s' % (r['canary'], r['why'][:120]))
+        elif r['status'] == 'broken-canary':
+            rep.note('canary %s does not compile any more: skipped' % r['canary'])
+        else:
+            rep.violation('CANARY', key, 'the checker no longer detects a seeded defect it is supposed to detect (self-test): %s' % r['why'][:300])
+    if summary.get('total', 0) == 0:
+        rep.note('no canary registered for this property')
 
 
 def main():
